@@ -25,6 +25,59 @@ import Ark.Model.Proto
   powers by square-and-multiply over `smul`; Frobenius = `x ↦ x^(p^k)` (directly when cheap, else via
   the `F_p`-linear map whose matrix holds the `p`-th powers of the basis, each computed by `spow`).
 -/
+/-! ### model additions for the coverage-gap ops of `quadratic_extension.rs`, `cubic_extension.rs`,
+    `fields/arithmetic.rs`, `to_field_vec.rs` (kept here so that the modules depending on `Ext` are not rebuilt) -/
+namespace Ark.Ext
+section gap
+variable {P E : Type} [Add E] [Mul E] [Neg E] [Zero E] [One E]
+
+/-- `Field::inverse_in_place`: `self.inverse().map(|inverse| { *self = inverse; self })` —
+    `(returned value, self afterwards)` -/
+def inverseInPlace (D : FieldD P E) (a : E) : Outcome (Option E × E) :=
+  obind (D.inverse a) fun
+    | some i => .ok (some i, i)
+    | none => .ok (none, a)
+
+/-- `DivAssign<&Self>`: `*self *= &other.inverse().unwrap()`; all `Div` / `DivAssign` receiver variants
+    of `impl_multiplicative_ops_from_ref!` and `Div<&Self>` end here -/
+def fieldDiv (D : FieldD P E) (a b : E) : Outcome E :=
+  obind (D.inverse b) fun
+    | some i => .ok (a * i)
+    | none => .panic
+
+/-- `Sum<Self>` / `Sum<&Self>`: `iter.fold(Self::zero(), Add::add)` -/
+def sumIter (xs : List E) : E := xs.foldl (· + ·) 0
+/-- `Product<Self>` / `Product<&Self>`: `iter.fold(Self::one(), Mul::mul)` -/
+def productIter (xs : List E) : E := xs.foldl (· * ·) 1
+
+/-- `From<u8 … u128>` (and `From<bool>` of `QuadExtField`): `Self::new(other.into(), ZERO [, ZERO])`, layer by
+    layer down to the prime field, i.e. `ofPrime` of the prime-field conversion `conv` -/
+def fromUnsigned (D : FieldD P E) (conv : Nat → P) (x : Nat) : E := D.ofPrime (conv x)
+
+/-- `From<i8 … i128>`: `let abs = Self::from(val.unsigned_abs()); if val.is_positive() { abs } else { -abs }` -/
+def fromSignedInt (D : FieldD P E) (conv : Nat → P) (x : Int) : E :=
+  let abs := D.ofPrime (conv x.natAbs)
+  if x > 0 then abs else -abs
+
+end gap
+
+/-- `<[u8] as ToConstraintField<F>>::to_field_elements` for a prime field `F` of `bits = MODULUS_BIT_SIZE` bits:
+    `self.chunks((bits − 1) / 8)` (panics for chunk size 0), every chunk zero-padded and read back by
+    `deserialize_compressed` (little endian, the first `⌈bits/8⌉` bytes; `None` when the value is `≥ p`),
+    collected into an `Option<Vec<_>>` -/
+def bytesToFieldElements (p : Nat) (bytes : List Nat) : Outcome (Option (List Nat)) :=
+  let bits := if p = 0 then 0 else p.log2 + 1
+  let maxSize := (bits - 1) / 8
+  if maxSize = 0 then .panic
+  else
+    let nb := (bits + 7) / 8
+    let vals := (chunks maxSize bytes bytes.length).map (fun ch =>
+      let v := ((ch ++ List.replicate (nb - ch.length) 0).take nb).zipIdx.foldl (fun acc (b, i) => acc + b * 256 ^ i) 0
+      if v ≥ p then none else some v)
+    .ok (if vals.all Option.isSome then some (vals.filterMap id) else none)
+
+end Ark.Ext
+
 namespace Ark.DrvC02
 open Ark Ark.Proto Ark.Ext
 
@@ -149,7 +202,22 @@ def isInverse (I : Inst) (a : List Nat) (impl : String) : String :=
 
 def ringOps : List String :=
   ["add", "sub", "neg", "double", "mul", "square", "mulprime", "mulbase", "mulfp", "mulfp2", "mulafp2",
-   "m034", "m014", "m01", "m1", "fromelems", "hnr", "hnradd", "hnrp1", "hsub"]
+   "m034", "m014", "m01", "m1", "fromelems", "hnr", "hnradd", "hnrp1", "hsub",
+   "sum", "prod", "fromw", "zeroize", "valid", "tfe", "tfe_bool", "tfe_unit", "tfe_slice", "tfe_prime", "tfe_bytes"]
+
+/-- `(signed, bits)` of the integer types with a `From` impl -/
+def intWidth? (w : String) : Option (Bool × Nat) :=
+  match w with
+  | "u8" => some (false, 8) | "u16" => some (false, 16) | "u32" => some (false, 32) | "u64" => some (false, 64)
+  | "u128" => some (false, 128) | "i8" => some (true, 8) | "i16" => some (true, 16) | "i32" => some (true, 32)
+  | "i64" => some (true, 64) | "i128" => some (true, 128) | "bool" => some (false, 1) | _ => none
+
+def intInRange (sb : Bool × Nat) (x : Int) : Bool :=
+  if sb.1 then decide (-(2 ^ (sb.2 - 1) : Int) ≤ x ∧ x < (2 ^ (sb.2 - 1) : Int)) else decide (0 ≤ x ∧ x < (2 ^ sb.2 : Int))
+
+def Shape.topCubic : Shape → Bool
+  | .ext 3 _ _ => true
+  | _ => false
 
 def verdict (I : Inst) (op : String) (args : List String) (impl : String) : Option String := do
   if I.ringOnly && !ringOps.contains op then return "ok"
@@ -225,6 +293,61 @@ def verdict (I : Inst) (op : String) (args : List String) (impl : String) : Opti
     match sh with
     | .prime => none
     | .ext _ β b => some (eq (vsub p x (smul p b β y)))
+  -- ---- coverage-gap ops
+  | "invip", [a] =>
+    -- impl = "<returned value> <self afterwards>"
+    let a ← el a
+    match impl.splitOn " " with
+    | [r, sf] =>
+      if a.all (· == 0) then some (vs impl ("none " ++ hexList a))
+      else if r != sf then some "bad:self-not-updated"
+      else some (isInverse I a r)
+    | _ => some ("bad:" ++ impl)
+  | "div", [a, b] =>
+    -- every receiver variant of `Div` / `DivAssign`: division by zero panics (documented), else `x·b = a`
+    let a ← el a; let b ← el b
+    if b.all (· == 0) then some (vs impl "panic")
+    else match parseList? impl with
+      | some x =>
+        if x.length == n && x.all (· < p) && mulS b x == a then some "ok" else some "bad:x*b!=a"
+      | none => some ("bad:" ++ impl)
+  | "sum", [l] =>
+    let l ← parseList? l
+    if l.length % n != 0 then none
+    else some (eq ((chunk n (l.length / n) l).foldl (vadd p) (List.replicate n 0)))
+  | "prod", [l] =>
+    let l ← parseList? l
+    if l.length % n != 0 then none
+    else some (eq ((chunk n (l.length / n) l).foldl mulS (unitVec p n 0)))
+  | "fromw", [w, x] =>
+    let sb ← intWidth? w; let x ← parseInt? x
+    if !intInRange sb x then none
+    else if w == "bool" && sh.topCubic then
+      -- `impl From<bool> for CubicExtField` is `other.into()`: unconditional recursion (DESIGN.md §5 notes)
+      some (if impl == "hang" || impl == "stack-overflow" then "note:From<bool> for CubicExtField recurses forever: " ++ impl
+            else "bad:" ++ impl)
+    else some (eq (embed n [((x % (p : Int)).toNat)]))
+  | "zeroize", [a] => let _ ← el a; some (eq (List.replicate n 0))
+  | "valid", [a] => let _ ← el a; some (vs impl "ok")
+  | "tfe", [a] => let a ← el a; some (eq a)
+  | "tfe_bool", [b] => some (eq (if b == "1" then unitVec p n 0 else List.replicate n 0))
+  | "tfe_unit", [] => some (vs impl "_")
+  | "tfe_slice", [l] => let l ← parseList? l; some (eq l)
+  | "tfe_prime", [x] => let x ← parseHex? x; some (eq [x % p])
+  | "tfe_bytes", [bs] =>
+    -- documented packing: chunks of `(MODULUS_BIT_SIZE − 1) / 8` bytes, each read little endian
+    let bs ← parseList? bs
+    let bits := p.log2 + 1
+    let ms := (bits - 1) / 8
+    if ms == 0 then
+      some (if impl == "panic" then "note:[u8]::to_field_elements panics (chunks(0)) for moduli below 2^8" else "bad:" ++ impl)
+    else
+      let rec pack (fuel : Nat) (l : List Nat) : List Nat :=
+        match fuel with
+        | 0 => []
+        | f + 1 => if l.isEmpty then [] else
+          ((l.take ms).reverse.foldl (fun acc b => acc * 256 + b) 0) :: pack f (l.drop ms)
+      some (eq (pack bs.length bs))
   -- cyclotomic operations: the property speaks about members of the cyclotomic subgroup only
   | "cycsq", [a] =>
     let a ← el a
@@ -259,13 +382,51 @@ def showOO {E : Type} (D : FieldD (Fp p) E) : Outcome (Option E) → String
 def parseE {E : Type} (D : FieldD (Fp p) E) (s : String) : Option E := do
   let l ← parseList? s
   D.fromPrimes (fps l)
+/-- a list of elements printed as one flattened coordinate list -/
+def parseEs {E : Type} (D : FieldD (Fp p) E) (s : String) : Option (List E) := do
+  let l ← parseList? s
+  let d := D.extDeg
+  if d = 0 ∨ l.length % d != 0 then none
+  else mapM? (fun c => D.fromPrimes (fps c)) (chunk d (l.length / d) l)
+def showEs {E : Type} (D : FieldD (Fp p) E) (es : List E) : String :=
+  hexList (es.flatMap (fun e => (D.toPrimes e).map (·.val)))
+
 /-- operations every tower has (trait `Field`, `CyclotomicMultSubgroup`) -/
 def genModel {E : Type} [Add E] [Sub E] [Mul E] [Neg E] [Zero E] [One E] [DecidableEq E]
     (D : FieldD (Fp p) E) (C : CycD E) (extra : String → List String → Option String)
-    (op : String) (args : List String) : Option String :=
+    (op : String) (args : List String) (topCubic : Bool := false) : Option String :=
   let pe := parseE D
   let sh := showE D
   match op, args with
+  -- ---- coverage-gap ops
+  | "invip", [a] => do
+    let a ← pe a
+    some (match inverseInPlace D a with
+      | .ok (some r, sf) => sh r ++ " " ++ sh sf
+      | .ok (none, sf) => "none " ++ sh sf
+      | .panic => "panic")
+  | "div", [a, b] => do let a ← pe a; let b ← pe b; some (showO D (fieldDiv D a b))
+  | "sum", [l] => do let l ← parseEs D l; some (sh (sumIter l))
+  | "prod", [l] => do let l ← parseEs D l; some (sh (productIter l))
+  | "fromw", [w, x] => do
+    let sb ← intWidth? w; let x ← parseInt? x
+    if !intInRange sb x then none
+    else if w == "bool" && topCubic then some "any:diverges (unconditional recursion)"
+    else if sb.1 then some (sh (fromSignedInt D (Fp.ofNat p) x))
+    else some (sh (fromUnsigned D (Fp.ofNat p) x.toNat))
+  | "zeroize", [a] => do let _ ← pe a; some (sh (0 : E))
+  | "valid", [a] => do let _ ← pe a; some "ok"
+  | "tfe", [a] => do let a ← pe a; some (hexList ((D.toPrimes a).map (·.val)))
+  | "tfe_bool", [b] => some (showEs D [if b == "1" then (1 : E) else 0])
+  | "tfe_unit", [] => some "_"
+  | "tfe_slice", [l] => do let l ← parseEs D l; some (showEs D l)
+  | "tfe_prime", [x] => do let x ← parseHex? x; some (hexList [(Fp.ofNat p x).val])
+  | "tfe_bytes", [bs] => do
+    let bs ← parseList? bs
+    some (match bytesToFieldElements p bs with
+      | .ok (some l) => hexList l
+      | .ok none => "none"
+      | .panic => "panic")
   | "add", [a, b] => do let a ← pe a; let b ← pe b; some (sh (a + b))
   | "sub", [a, b] => do let a ← pe a; let b ← pe b; some (sh (a - b))
   | "neg", [a] => do let a ← pe a; some (sh (-a))
@@ -361,7 +522,7 @@ def instFp3 (p : Nat) (nr : Nat) (c1 c2 : List Nat) : Inst :=
       some (showE D3 (Fp3.mulAssignByFp a (Fp.ofNat p e)))
     | _, _ => none
   mkInst p (.ext 3 [nr] .prime) false
-    (genModel D3 (CycD.default D3) (cubicExtra q3 B0 more))
+    (fun op args => genModel D3 (CycD.default D3) (cubicExtra q3 B0 more) op args true)
 
 def instFp4 (p : Nat) (hooks : String) (nr2 : Nat) (tbl2 : List Nat) (nr4 : List Nat) (tbl4 : List Nat) :
     Option Inst := do
@@ -446,7 +607,7 @@ def instFp6b12 (p : Nat) (hooks2 : String) (nr2 : Nat) (tbl2 : List Nat) (hooks6
         let a ← parseE D6 a; let x0 ← parseE D2 x0; let x1 ← parseE D2 x1
         some (showE D6 (Fp6b.mulBy01 cf6 a x0 x1))
       | _, _ => none
-    some (mkInst p sh6 false (genModel D6 (CycD.default D6) (cubicExtra q6 D2 more)))
+    some (mkInst p sh6 false (fun op args => genModel D6 (CycD.default D6) (cubicExtra q6 D2 more) op args true))
   | some (nr12, tbl12) =>
     let nr12e ← D6.fromPrimes (fps nr12)
     let t12 ← parseEsL D2 tbl12
